@@ -130,6 +130,11 @@ def install(rec):
             else:
                 sc = float(np.abs(want).max()) if want.size else 0.0
                 eps = 1.2e-7 if got.dtype in (np.float32, np.complex64) else EPS
+                if got.dtype in (np.float32, np.complex64) and np.asarray(want).dtype.itemsize >= 8 \
+                        and np.asarray(want).dtype.kind in "iufc" and np.asarray(want).dtype not in (np.float32, np.complex64):
+                    # the single-threaded form works in (at least) double precision / exact
+                    # integers for these operands: the threaded one is held to that
+                    eps = EPS
                 ok, err, _ = close(got, want, sc, eps, 1e3)
             mech = f"{entry}:value"
             if not ok and not fut_ok:
@@ -281,6 +286,12 @@ def wl_kernels(rng, rec, tier):
                                        random_state=int(rng.integers(1 << 30)))
                 A = A.tocsr()
             x = gen.rand_array(rng, (nn, 1) if rng.random() < 0.5 else (nn,), "complex128")
+            if rng.random() < 0.15:
+                # integer operands (adjacency / counting matrices): exact arithmetic,
+                # values well beyond single precision
+                A = sp.random(mm, nn, density=dens, format="csr", random_state=int(rng.integers(1 << 30)),
+                              data_rvs=lambda size: rng.integers(1, 100000, size=size)).astype(np.int64)
+                x = rng.integers(1, 100000, size=(nn,)).astype(np.int64)
             gen.attempt(core.par_dot_csr_matvec, A, x, **kw)
         elif which == "l_diag":
             nn = min(n, 600)
